@@ -17,7 +17,32 @@ def c06(tier):
                  "verif-tag bridge tests in cmd/go-critic and cmd/gocritic, analyzer.VerifFilter hook"])
 
 
-CHECKS = {"C06": c06}
+FW_TRUSTED = ["go/parser, go/types, golang.org/x/tools/go/packages (loading of the corpus); the ruleguard engine and astutil.Apply are observed, not modelled",
+              "harness/internal/fw: corpus loader, warning projection (offset/text/fix), structural fingerprint (unit-tested in fingerprint_test.go)"]
+
+
+def c03(tier):
+    vlib.standard(
+        "C03", tier, "c03", [f for f in ["Properties_C03.v", "Proofs_History.v", "StateInventory.v"] if _exists(f)],
+        assume=["pkgload sorts the loaded packages by PkgPath (documented behaviour of the loader; exercised end to end by the CLI stream, not modelled)",
+                "the ruleguard engines' internal state (gogrep matcher state, node path) is covered by the reused-vs-fresh oracle only"],
+        trusted=FW_TRUSTED + ["translator vh gen stateinv (go/ast+go/types over /repo/checkers -> gen/StateInventory.v)"])
+
+
+def c05(tier):
+    vlib.standard(
+        "C05", tier, "c05", [f for f in ["Properties_C05.v", "Proofs_Heap.v", "MutationSites.v"] if _exists(f)],
+        assume=["writes performed inside third-party code (ruleguard engine, astutil.Apply internals, astcopy) are covered by the fingerprint oracle only",
+                "the fingerprint deliberately ignores the deprecated resolver fields ast.File.Scope/Unresolved and ast.Ident.Obj"],
+        trusted=FW_TRUSTED + ["translator vh gen mutsites (go/ast+go/types over /repo/checkers, /repo/linter -> gen/MutationSites.v)"])
+
+
+def _exists(f):
+    import os
+    return os.path.exists(os.path.join(vlib.COQ, "theories", f)) or os.path.exists(os.path.join(vlib.COQ, "gen", f))
+
+
+CHECKS = {"C03": c03, "C05": c05, "C06": c06}
 
 
 def run(prop, tier):
